@@ -26,6 +26,7 @@ func runC09(c *mon.Ctx) {
 			c09Round(c, r)
 			c09BucketRace(c, r.Fork(77), 8)
 			c09SecondLife(c, r.Fork(78))
+			c09DeriveStorm(c, r.Fork(79))
 		})
 	}
 }
@@ -663,4 +664,92 @@ func c09SecondLife(c *mon.Ctx, r *mon.Rand) {
 		}
 	}
 	c.Event("second-life-rounds", int64(rounds))
+}
+
+// c09DeriveStorm: four times as many goroutines as processors derive fresh
+// scopes with long keys (beyond any small scratch buffer), yielding between
+// calls so that goroutines overtake each other between the steps of a
+// derivation. Every goroutine's identities are its own and a few are shared by
+// all; asking again must hand out the same object, and each identity's
+// counter must end up with exactly what was added under that identity.
+func c09DeriveStorm(c *mon.Ctx, r *mon.Rand) {
+	pr := mon.NewPlainRec(false)
+	shards := uint(r.Range(0, 4))
+	root, _ := vNewRoot(tally.ScopeOptions{Reporter: pr, OmitCardinalityMetrics: true, Tags: map[string]string{"rt": "x"}}, 0, shards)
+	G := 4 * runtime.GOMAXPROCS(0)
+	if G > 64 {
+		G = 64
+	}
+	const M = 24
+	pad := make([]byte, r.Range(200, 400))
+	for i := range pad {
+		pad[i] = byte('a' + i%26)
+	}
+	var wg sync.WaitGroup
+	var mismatches int64
+	var first atomic.Value
+	start := make(chan struct{})
+	for g := 0; g < G; g++ {
+		wg.Add(1)
+		go func(g int) {
+			defer wg.Done()
+			<-start
+			for i := 0; i < M; i++ {
+				var tags map[string]string
+				if i%4 == 3 {
+					tags = map[string]string{"shared": fmt.Sprint(i), "pad": string(pad)}
+				} else {
+					tags = map[string]string{"g": fmt.Sprint(g), "i": fmt.Sprint(i), "pad": string(pad[:len(pad)-g])}
+				}
+				var sc tally.Scope
+				if i%2 == 0 {
+					sc = root.Tagged(tags)
+				} else {
+					sc = root.SubScope("p").Tagged(tags)
+				}
+				runtime.Gosched()
+				sc.Counter("c").Inc(1)
+				var again tally.Scope
+				if i%2 == 0 {
+					again = root.Tagged(tags)
+				} else {
+					again = root.SubScope("p").Tagged(tags)
+				}
+				if ptrOf(again) != ptrOf(sc) {
+					if atomic.AddInt64(&mismatches, 1) == 1 {
+						first.Store(fmt.Sprintf("goroutine %d derivation %d: asking twice for the scope with tags g=%v i=%v shared=%v (and a pad of %d bytes) returned two different objects", g, i, tags["g"], tags["i"], tags["shared"], len(tags["pad"])))
+					}
+				}
+			}
+		}(g)
+	}
+	close(start)
+	wg.Wait()
+	if n := atomic.LoadInt64(&mismatches); n > 0 {
+		c.Violation("scope-not-unique", map[string]interface{}{"why": first.Load(), "mismatches": n, "goroutines": G, "shards": shards})
+	}
+	tally.VerifReportPass(root)
+	_, agg, _ := pr.Snapshot()
+	bad := 0
+	for g := 0; g < G; g++ {
+		for i := 0; i < M; i++ {
+			name, want := "c", int64(1)
+			if i%2 == 1 {
+				name = "p.c"
+			}
+			tags := map[string]string{"rt": "x", "g": fmt.Sprint(g), "i": fmt.Sprint(i), "pad": string(pad[:len(pad)-g])}
+			if i%4 == 3 {
+				if g > 0 {
+					continue
+				}
+				tags, want = map[string]string{"rt": "x", "shared": fmt.Sprint(i), "pad": string(pad)}, int64(G)
+			}
+			if a := agg[mon.IdentKey(name, tags)]; a.Sum != want {
+				if bad++; bad <= 3 {
+					c.Violation("contribution-lost", map[string]interface{}{"why": fmt.Sprintf("counter %s of the scope with tags g=%v i=%v shared=%v: delivered %d, added %d under that identity", name, tags["g"], tags["i"], tags["shared"], a.Sum, want), "goroutines": G, "shards": shards})
+				}
+			}
+		}
+	}
+	c.Event("storm-derivations", int64(G*M*2))
 }
